@@ -34,14 +34,24 @@ pub fn schedule_part(run: &Run) -> SchedOut {
     }
     let cfgs: Vec<(i64, i64, bool)> = vec![(0, 0, false), (0, 0, true), (1, 0, false), (0, 1, false)];
     let totals = std::sync::Mutex::new((0u64, 0u64, 0u64, 0u64, 0u64)); // executions, points, par_calls, problems, bound_cut
-    let jobs: Vec<(usize, usize)> = (0..problems.len()).flat_map(|p| (0..cfgs.len()).map(move |c| (p, c))).collect();
+    // mode 0: every hand-over (preemption or giving the next task to the other worker at a task end)
+    // is a deviation, bound 3 (thorough 4): complete below the bound.  mode 1: only preemptions are
+    // bounded, hand-overs at task ends are free (all task-to-worker assignments): capped per problem.
+    let mut jobs: Vec<(usize, usize, usize)> = vec![];
+    for m in 0..2 {
+        for p in 0..problems.len() {
+            for c in 0..cfgs.len() {
+                jobs.push((p, c, m));
+            }
+        }
+    }
     let exec_cap: u64 = if th { 200_000 } else { 3_000 };
     run.par_for(jobs.len(), |j| {
         if run.over_budget() {
             run.cap("wall budget reached in part 3 (schedules)");
             return;
         }
-        let (pi, ci) = jobs[j];
+        let (pi, ci, mode) = jobs[j];
         let (d, name) = &problems[pi];
         let (h, t, reduced) = cfgs[ci];
         let link = to_link(d);
@@ -51,16 +61,24 @@ pub fn schedule_part(run: &Run) -> SchedOut {
         };
         let reference = khovanov::<Z>(d, &z(h), &z(t), reduced.then_some(be)).total;
         let key = format!("khsched:{name}:{}:h={h},t={t},red={}", code_string(d), reduced as u8);
-        let cfg = Config { workers: 2, choose_items: false, max_decisions: 200_000, min_items: 2, count_task_switches: false };
-        let bound = if th && d.n <= 2 { 2 } else { 1 };
+        let cfg = Config { workers: 2, choose_items: false, max_decisions: 200_000, min_items: 2, count_task_switches: mode == 0 };
+        let bound = if mode == 0 { if th { 4 } else { 3 } } else if th && d.n <= 2 { 2 } else { 1 };
         let mut outcomes = BTreeSet::new();
+        let mut two_writers = false;
+        let mut writer_lines: BTreeSet<u32> = BTreeSet::new();
         let st = sched::explore(
             &cfg,
             Some(bound),
-            exec_cap,
+            if mode == 0 { exec_cap * 10 } else { exec_cap },
             || total_table(&KhHomology::<i64>::new(&link, &h, &t, reduced)),
             |r, tr| {
                 let detail = || json!({"pd": d.pd(), "h": h, "t": t, "reduced": reduced, "schedule": tr.choices(), "preemptions": tr.preemptions()});
+                if !two_writers {
+                    // non-vacuity: is one of the shared tables written by two workers in one parallel call?
+                    let w: BTreeSet<u8> = tr.labels.iter().filter(|l| l.1 == "rwlock.write").map(|l| l.0).collect();
+                    two_writers = w.len() >= 2;
+                }
+                writer_lines.extend(tr.labels.iter().filter(|l| l.1 == "rwlock.write").map(|l| l.2));
                 if tr.diverged.is_some() {
                     // KhHomology::new is not a deterministic function of the schedule (hash-seeded
                     // iteration orders decide which circle is delooped / which edge is eliminated next,
@@ -89,7 +107,11 @@ pub fn schedule_part(run: &Run) -> SchedOut {
             },
         );
         if !st.complete && run.nviolations() == 0 {
-            run.cap(&format!("part 3: execution cap {exec_cap} per problem hit"));
+            run.cap(&format!("part 3 (mode {mode}): execution cap {exec_cap} per problem hit"));
+        }
+        run.add(&format!("sched_mode{mode}_executions"), st.executions);
+        if st.complete {
+            run.add(&format!("sched_mode{mode}_problems_complete_below_bound"), 1);
         }
         let mut g = totals.lock().unwrap();
         g.0 += st.executions;
@@ -99,13 +121,20 @@ pub fn schedule_part(run: &Run) -> SchedOut {
         if st.bound_cut {
             g.4 += 1;
         }
+        if two_writers {
+            run.add("sched_problems_with_two_writers", 1);
+        }
+        for l in writer_lines {
+            run.add(&format!("sched_problems_reaching_write_lock_at_line_{l}"), 1);
+        }
     });
     let g = totals.into_inner().unwrap();
     SchedOut {
         executions: g.0,
         points: g.1,
-        json: json!({"problems": g.3, "workers": 2, "preemption_bound": "1 (thorough: 2 for <= 2 crossings)", "executions": g.0,
-                     "lock_points_passed": g.1, "scheduled_parallel_calls": g.2, "problems_where_bound_cut": g.4, "execution_cap_per_problem": exec_cap,
+        json: json!({"problems": g.3, "workers": 2, "mode0": {"rule": "deviations = preemptions + hand-overs at task ends, bound 3 (thorough 4)", "executions": run.get("sched_mode0_executions"), "problems_complete_below_bound": run.get("sched_mode0_problems_complete_below_bound")},
+                     "mode1": {"rule": "preemption bound 1 (thorough: 2 for <= 2 crossings), hand-overs at task ends free", "executions": run.get("sched_mode1_executions"), "problems_complete_below_bound": run.get("sched_mode1_problems_complete_below_bound")}, "executions": g.0,
+                     "lock_points_passed": g.1, "scheduled_parallel_calls": g.2, "problems_where_bound_cut": g.4, "problems_in_which_two_workers_take_a_write_lock": run.get("sched_problems_with_two_writers"), "execution_cap_per_problem": exec_cap,
                      "prefixes_not_replayable_because_of_hash_order": run.get("sched_prefixes_not_replayable"),
                      "note": "KhHomology::new is not a deterministic function of the schedule (hash-seeded orders); a DFS prefix that cannot be followed is abandoned and the execution that happened is judged instead, so the enumeration below the bound is not guaranteed complete"}),
     }
